@@ -21,7 +21,7 @@ def run (_tag : String) (kv : KV) : String :=
   let fin := settle P dead
   let ex := s!"exited={showBool fin.exited}"
   let ctx := if grpc then s!" ctx={showBool fin.ctxCancelled}" else ""
-  let after := s!"double={showRes (afterCrash P .call)} callback2={showRes (afterCrash P .brokerDial)} ping={showRes (afterCrash P .ping)} kill={showRes (afterCrash P .kill)}"
+  let after := s!"double={showRes (afterCrash P .call)} callback2={showRes (afterCrash P .brokerDial)} bdial={if kv.getD "proto" "netrpc" = "grpcmux" then "any" else showRes (afterCrash P .brokerDial)} baccept=any ping={showRes (afterCrash P .ping)} kill={showRes (afterCrash P .kill)}"
   if point = "attached-before-connect" then
     s!"start=ok client=any latecb={showRes (afterCrash P .brokerAccept)} kill={showRes (afterCrash P .kill)}"
   else if point = "before-output" ∨ point = "mid-line" ∨ point = "after-listener" then
